@@ -164,7 +164,7 @@ struct Driver {
       fs.write(p, "io.pressure", "some avg10=0.00 avg60=0.00 avg300=0.00 total=0\nfull avg10=0.00 avg60=0.00 avg300=0.00 total=0\n");
     }
     for (auto x : {"trusted.oomd_prefer", "user.oomd_prefer", "trusted.oomd_avoid", "user.oomd_avoid"}) {
-      if (n.prefX.count(x)) fs.setXattr(p, x, "1"); else fs.clearXattr(p, x);
+      if (n.prefX.count(x)) fs.setXattr(p, x, (std::hash<std::string>{}(p + x) % 3 == 0) ? "" : "1"); else fs.clearXattr(p, x);
     }
     if (n.oomg >= 0) fs.write(p, "memory.oom.group", n.oomg ? "1\n" : "0\n");
     fs.write(p, "cgroup.events", std::string("populated ") + (n.pop ? "1" : "0") + "\nfrozen 0\n");
@@ -313,7 +313,10 @@ int main(int argc, char** argv) {
       // reads as 0: the text goes to the file system, the integer reading to the specification
       static const std::vector<std::string> junk = {"abc", "", "x1", "99999999999999999999", "-"};
       auto put = [&](const char* name, int& v) {
-        if (r.chance(profile == "c17" ? 12 : 4)) { D.fs.setXattr(p, name, r.pick(junk)); v = 0; }
+        int x = r.upto(100);
+        if (x < (profile == "c17" ? 12 : 4)) { D.fs.setXattr(p, name, r.pick(junk)); v = 0; }
+        // written by something else than oomd: the number followed by a newline, a blank or a NUL still reads as the number
+        else if (x < (profile == "c17" ? 24 : 8)) D.fs.setXattr(p, name, std::to_string(v) + r.pick(std::vector<std::string>{"\n", " ", std::string(1, '\0')}));
         else D.fs.setXattr(p, name, std::to_string(v));
       };
       put("trusted.oomd_ooms", ot); put("user.oomd_ooms", ou); put("trusted.oomd_kill", kt); put("user.oomd_kill", ku);
